@@ -267,6 +267,8 @@ func SolveVac(dir, name, script string, timeoutS int) SolverResult {
 	return SolveWith(solvers[:2], dir, name, script, timeoutS, false)
 }
 
+const secondOpinionS = 15
+
 func SolveWith(solvers []solverSpec, dir, name, script string, timeoutS int, all bool) SolverResult {
 	file := filepath.Join(dir, name+".smt2")
 	if err := os.WriteFile(file, []byte(script), 0o644); err != nil {
@@ -318,12 +320,20 @@ func SolveWith(solvers []solverSpec, dir, name, script string, timeoutS int, all
 		record(a)
 		if decided && !all {
 			cancel()
+		} else if decided && all {
+			// thorough tier: the other back ends are asked for a second opinion, not for as long
+			// as an undecided query would get
+			time.AfterFunc(secondOpinionS*time.Second, cancel)
 		}
 	}
 	cancel()
 	if !decided || all {
 		for _, sp := range rest {
-			st, out, secs := runOne(sp, file, timeoutS)
+			t := timeoutS
+			if decided && t > secondOpinionS {
+				t = secondOpinionS
+			}
+			st, out, secs := runOne(sp, file, t)
 			record(ans{sp, st, out, secs})
 			if decided && !all {
 				break
